@@ -16,7 +16,8 @@ METHODS = [
     'Serializer.add_aligned_unsigned', 'Serializer.add_aligned_signed', 'Serializer.add_unaligned_array_of_bits',
     'Serializer.add_unaligned_bytes', 'Serializer.add_unaligned_unsigned', 'Serializer.add_unaligned_signed',
     'Serializer.add_unaligned_f16', 'Serializer.add_unaligned_f32', 'Serializer.add_unaligned_f64', 'Serializer.add_unaligned_bit',
-    'Serializer._unsigned_to_bytes', 'Serializer._float_to_bytes', 'Serializer._ensure_not_negative', 'Serializer._byte_offset',
+    'Serializer._unsigned_to_bytes', 'Serializer._float_to_bytes', 'Serializer._ensure_not_negative', 'Serializer._ensure_writable',
+    'Serializer._byte_offset',
     '_LittleEndianSerializer.add_aligned_array_of_standard_bit_length_primitives',
     '_LittleEndianSerializer.add_unaligned_array_of_standard_bit_length_primitives',
     '_BigEndianSerializer.add_aligned_array_of_standard_bit_length_primitives',
@@ -40,44 +41,86 @@ METHODS = [
 ]
 
 
-EXTRA_PATCHED = ['Serializer._ensure_writable']   # exists only with design_notes/C14_py_too_small_fix.patch applied
+CLASSES = ['Serializer', '_LittleEndianSerializer', '_BigEndianSerializer', 'Deserializer', '_LittleEndianDeserializer',
+           '_BigEndianDeserializer', 'ZeroExtendingBuffer']
+# the writers that call Serializer._ensure_writable since /repo f2fd316 (finding F-PY-SER-SILENT-DROP, fixed)
+CAPACITY_TESTED = ['add_aligned_array_of_bits', 'add_aligned_bytes', 'add_aligned_u16', 'add_aligned_u32', 'add_aligned_u64',
+                   'add_aligned_unsigned', 'add_unaligned_bytes']
+
+
+def _class_skeleton(tree, cls: str) -> str:
+    """bases and the ordered list of names bound in the class body: an override added to a subclass (the classes `new()` returns are
+    the _LittleEndian* ones), a second definition or a class-level assignment changes this line"""
+    import ast
+    from . import shape_pin
+    node = shape_pin._find(tree, cls)
+    names = []
+    for ch in node.body:
+        if isinstance(ch, (ast.FunctionDef, ast.AsyncFunctionDef, ast.ClassDef)):
+            names.append(ch.name)
+        elif isinstance(ch, ast.Assign):
+            names += ['%s=' % n.id for t in ch.targets for n in ast.walk(t) if isinstance(n, ast.Name)]
+        elif isinstance(ch, (ast.AnnAssign, ast.AugAssign)) and isinstance(ch.target, ast.Name):
+            names.append('%s=' % ch.target.id)
+    return '## class %s(%s): %s' % (cls, ', '.join(ast.unparse(b) for b in node.bases), ' '.join(names))
 
 
 def _dump() -> str:
-    from . import shape_pin
-    parts = ['## %s:%s\n%s' % (SUPPORT, m, shape_pin.normalized_dump(SUPPORT, m)) for m in METHODS]
-    for m in EXTRA_PATCHED:
-        try:
-            parts.append('## %s:%s\n%s' % (SUPPORT, m, shape_pin.normalized_dump(SUPPORT, m)))
-        except KeyError:
-            pass
+    from . import gen, shape_pin
+    tree = gen.parse_repo(SUPPORT)
+    parts = [_class_skeleton(tree, c) for c in CLASSES]
+    parts += ['## %s:%s\n%s' % (SUPPORT, m, shape_pin.normalized_dump(SUPPORT, m)) for m in METHODS]
     return '\n'.join(parts) + '\n'
 
 
+def _capacity_test_present() -> bool:
+    """regenerated fix fact (f2fd316): Serializer._ensure_writable exists, raises, and every writer of CAPACITY_TESTED calls it"""
+    import ast
+    from . import gen, shape_pin
+    tree = gen.parse_repo(SUPPORT)
+    try:
+        ens = shape_pin._find(tree, 'Serializer._ensure_writable')
+    except KeyError:
+        return False
+    if not any(isinstance(n, ast.Raise) for n in ast.walk(ens)):
+        return False
+    for m in CAPACITY_TESTED:
+        fn = shape_pin._find(tree, 'Serializer.' + m)
+        calls = [n for n in ast.walk(fn) if isinstance(n, ast.Call) and isinstance(n.func, ast.Attribute) and n.func.attr == '_ensure_writable']
+        if not calls:
+            return False
+    return True
+
+
+def _sha(text: str) -> str:
+    import hashlib
+    return hashlib.sha256(text.encode('utf-8')).hexdigest()[:32]
+
+
 def pin_c14py() -> typing.Tuple[bool, str]:
-    """two accepted shapes: pins/c14py.txt (text without the capacity test: finding F-PY-SER-SILENT-DROP) and pins/c14py_patched.txt
-    (with design_notes/C14_py_too_small_fix.patch).  Gen_Pin_c14py.v defines pin_c14py_ok and says which one was seen."""
+    """ONE accepted shape: pins/c14py.txt = the text of /repo f2fd316 (with Serializer._ensure_writable).  Gen_Pin_c14py.v defines
+    pin_c14py_ok only then, plus the regenerated fact pin_c14py_capacity_test_present and the hash pin_c14py_sha of the normalised
+    dump, which Properties/C14.v compares with PyPrims.modelled_py_support_sha (the model file names the text it models)."""
     import os
     from . import gen, shape_pin
     out = os.path.join(gen.GEN_DIR, 'Gen_Pin_c14py.v')
-    head = gen.HEADER % ('%s (%d methods of Serializer / Deserializer / ZeroExtendingBuffer)' % (SUPPORT, len(METHODS)))
+    head = gen.HEADER % ('%s (%d methods of Serializer / Deserializer / ZeroExtendingBuffer + %d class skeletons)' % (SUPPORT, len(METHODS), len(CLASSES)))
+    head += 'Require Import Coq.Strings.String.\n'
     try:
         cur = _dump()
-        shapes = {}
-        for tag in ('c14py', 'c14py_patched'):
-            f = os.path.join(shape_pin.PINS, tag + '.txt')
-            if os.path.exists(f):
-                shapes[tag] = open(f, encoding='utf-8').read()
+        fact = _capacity_test_present()
+        pinned = open(os.path.join(shape_pin.PINS, 'c14py.txt'), encoding='utf-8').read()
     except (OSError, KeyError, SyntaxError, AssertionError) as ex:
         gen.write_if_changed(out, head + '(* shape pin failed closed: %r *)\n' % (ex,))
         return False, 'shape pin c14py failed closed: %r' % (ex,)
-    for tag, text in shapes.items():
-        if cur == text:
-            gen.write_if_changed(out, head + 'Definition pin_c14py_ok : bool := true.\n'
-                                 'Definition pin_c14py_capacity_test_present : bool := %s.\n' % ('true' if tag == 'c14py_patched' else 'false'))
-            return True, 'ok (%s)' % tag
-    gen.write_if_changed(out, head + '(* shape of the pinned methods changed: the hand model is no longer known to describe the code *)\n')
-    return False, 'shape pin c14py: the code has neither of the shapes the hand models were written for'
+    facts = ('Definition pin_c14py_capacity_test_present : bool := %s.\nDefinition pin_c14py_sha : string := "%s"%%string.\n'
+             % ('true' if fact else 'false', _sha(cur)))
+    if cur == pinned:
+        gen.write_if_changed(out, head + 'Definition pin_c14py_ok : bool := true.\n' + facts)
+        return True, 'ok (sha %s, capacity test %s)' % (_sha(cur), 'present' if fact else 'ABSENT')
+    gen.write_if_changed(out, head + '(* shape of the pinned methods changed: the hand model is no longer known to describe the code *)\n' + facts)
+    return False, 'shape pin c14py: the code does not have the shape the hand model was written for (sha %s, capacity test %s)' % (
+        _sha(cur), 'present' if fact else 'ABSENT')
 
 
 # ---------------------------------------------------------------------------------------------------------------------
@@ -255,40 +298,96 @@ def _render_header(job: typing.Tuple[str, str, typing.List[str]]) -> typing.Tupl
         shutil.rmtree(out, ignore_errors=True)
 
 
-def _dump_c() -> str:
+def _render_all() -> typing.List[typing.Tuple[str, typing.List[typing.Tuple[str, typing.List[str]]]]]:
+    """[(variant, [(qualified function name (overloads numbered), tokens)])]"""
     import concurrent.futures
-    import hashlib
-    lines = []
+    out = []
     with concurrent.futures.ThreadPoolExecutor(max_workers=8) as ex:
         for name, text, err in ex.map(_render_header, c_variants()):
             if text is None:
                 raise AssertionError(err)
             seen: typing.Dict[str, int] = {}
+            fns = []
             for fn, toks in c_functions(text):
                 seen[fn] = seen.get(fn, 0) + 1
-                q = fn if seen[fn] == 1 else '%s#%d' % (fn, seen[fn])
-                lines.append('%s | %s | %d | %s' % (name, q, len(toks), hashlib.sha256('\x1f'.join(toks).encode()).hexdigest()[:24]))
+                fns.append((fn if seen[fn] == 1 else '%s#%d' % (fn, seen[fn]), toks))
+            out.append((name, fns))
+    return out
+
+
+def _dump_c(rendered=None) -> str:
+    import hashlib
+    lines = []
+    for name, fns in (rendered if rendered is not None else _render_all()):
+        for q, toks in fns:
+            lines.append('%s | %s | %d | %s' % (name, q, len(toks), hashlib.sha256('\x1f'.join(toks).encode()).hexdigest()[:24]))
     return '\n'.join(lines) + '\n'
 
 
+def _has(toks: typing.List[str], needle: str) -> bool:
+    n = needle.split(' ')
+    return any(toks[i:i + len(n)] == n for i in range(len(toks) - len(n) + 1))
+
+
+def _facts_c(rendered) -> typing.Dict[str, bool]:
+    """regenerated fix facts, each required of EVERY rendering:
+       setuxx_saturating_check (/repo ba46e0a, F-SETUXX-OFFSET-WRAP): SetUxx / setUxx test `len_bits > (capacity_bits - off)` and never add
+         the offset to the length;
+       bitspan_pad_wide (design_notes/C14_bitspan_wrap_fix.patch, F-BITSPAN-PAD-TRUNC): no static_cast<uint8_t> in padAndMoveToAlignment;
+       bitspan_subspan_saturating (same patch, F-BITSPAN-SUBSPAN-WRAP): subspan(bits_at, size_bits) detects the wrapped sum and tests
+         `new_offset_bits > (size_available_bits - size_bits)`."""
+    sat = pad = sub = True
+    for name, fns in rendered:
+        d = dict(fns)
+        if name.startswith('c/'):
+            t = d['nunavutSetUxx']
+            sat &= _has(t, 'len_bits > ( capacity_bits - off_bits )') and not _has(t, 'off_bits + len_bits')
+        else:
+            t = d['nunavut::support::setUxx']
+            sat &= _has(t, 'len_bits > ( capacity_bits - offset_bits_ )') and not _has(t, 'offset_bits_ + len_bits')
+            pad &= not _has(d['nunavut::support::padAndMoveToAlignment'], 'static_cast < uint8_t >')
+            t = d['nunavut::support::subspan']
+            sub &= _has(t, 'offset_bits < bits_at') and _has(t, 'new_offset_bits > ( size_available_bits - size_bits )')
+    return {'setuxx_saturating_check': sat, 'bitspan_pad_wide': pad, 'bitspan_subspan_saturating': sub}
+
+
+C_PINS = ['c14c', 'c14c_fixed']     # c14c_fixed: with design_notes/C14_bitspan_wrap_fix.patch (dropped / renamed once it has landed)
+
+
 def pin_c14c() -> typing.Tuple[bool, str]:
+    """Gen_Pin_c14c.v: pin_c14c_ok (the streams equal one of C_PINS), the regenerated fix facts, and the hashes of the C and of the C++
+    part of the dump, which Properties/C14.v compares with CPrims.modelled_c_header_sha and CppPrims.modelled_cpp_header_sha
+    (CppPrimsFix.modelled_cpp_header_sha_fix when the bitspan fix is present)."""
     import os
     from . import gen, shape_pin
     out = os.path.join(gen.GEN_DIR, 'Gen_Pin_c14c.v')
     head = gen.HEADER % ('the rendered %s and %s (%d option combinations; one token-stream hash per function)' % (C_HEADER, CPP_HEADER, len(c_variants())))
+    head += 'Require Import Coq.Strings.String.\n'
     try:
-        cur = _dump_c()
-        pinned = open(os.path.join(shape_pin.PINS, 'c14c.txt'), encoding='utf-8').read()
+        rendered = _render_all()
+        cur = _dump_c(rendered)
+        facts = _facts_c(rendered)
+        pins = {}
+        for tag in C_PINS:
+            f = os.path.join(shape_pin.PINS, tag + '.txt')
+            if os.path.exists(f):
+                pins[tag] = open(f, encoding='utf-8').read()
     except (OSError, AssertionError, KeyError, IndexError) as ex:
         gen.write_if_changed(out, head + '(* token pin failed closed: %r *)\n' % (ex,))
         return False, 'token pin c14c failed closed: %r' % (ex,)
-    if cur == pinned:
-        n = len(cur.splitlines())
-        gen.write_if_changed(out, head + 'Definition pin_c14c_ok : bool := true.\nDefinition pin_c14c_entries : nat := %d.\n' % n)
-        return True, 'ok (%d function streams in %d renderings)' % (n, len(c_variants()))
-    a, b = set(pinned.splitlines()), set(cur.splitlines())
+    sha_c = _sha(''.join(l + '\n' for l in cur.splitlines() if l.startswith('c/')))
+    sha_cpp = _sha(''.join(l + '\n' for l in cur.splitlines() if l.startswith('cpp/')))
+    defs = ''.join('Definition pin_c14c_%s_present : bool := %s.\n' % (k, 'true' if v else 'false') for k, v in sorted(facts.items()))
+    defs += 'Definition pin_c14c_sha_c : string := "%s"%%string.\nDefinition pin_c14c_sha_cpp : string := "%s"%%string.\n' % (sha_c, sha_cpp)
+    for tag, text in pins.items():
+        if cur == text:
+            n = len(cur.splitlines())
+            gen.write_if_changed(out, head + 'Definition pin_c14c_ok : bool := true.\nDefinition pin_c14c_entries : nat := %d.\n' % n + defs)
+            return True, 'ok (%s: %d function streams in %d renderings; sha c %s, cpp %s; facts %r)' % (tag, n, len(c_variants()), sha_c, sha_cpp, facts)
+    ref = pins.get('c14c', '')
+    a, b = set(ref.splitlines()), set(cur.splitlines())
     changed = sorted({' | '.join(l.split(' | ')[:2]) for l in a ^ b})
-    gen.write_if_changed(out, head + '(* a function of a support header no longer has the token stream the hand model was written for *)\n')
+    gen.write_if_changed(out, head + '(* a function of a support header no longer has the token stream the hand model was written for *)\n' + defs)
     return False, 'token pin c14c: %d function stream(s) differ from pins/c14c.txt, e.g. %s' % (len(changed), '; '.join(changed[:4]))
 
 
@@ -299,9 +398,10 @@ if __name__ == '__main__':
     import os
     from . import shape_pin
     if sys.argv[1:2] == ['--update-c']:
-        with open(os.path.join(shape_pin.PINS, 'c14c.txt'), 'w', encoding='utf-8') as f:
+        tag = sys.argv[2] if len(sys.argv) > 2 else 'c14c'
+        with open(os.path.join(shape_pin.PINS, tag + '.txt'), 'w', encoding='utf-8') as f:
             f.write(_dump_c())
-        print('pinned c14c')
+        print('pinned', tag)
         sys.exit(0)
     if sys.argv[1:2] == ['--update']:
         tag = sys.argv[2] if len(sys.argv) > 2 else 'c14py'
